@@ -323,6 +323,7 @@ CLUTTER = {
     "LICENSES/MIT.txt.license": "SPDX-FileCopyrightText: 2000 MIT authors\nSPDX-License-Identifier: CC0-1.0\n",
     ".reuse/templates/t.jinja2": "{{ x }}\n",
     ".hgtags": "tags\n",
+    "docs/named-pipe": {"fifo": True},
 }
 
 
